@@ -402,7 +402,9 @@ func (c *simConn) ReadBatch(msgs conn.Messages) (int, error) {
 	if !w.tearing {
 		c.held = c.held[min(n, len(c.held)):]
 	}
-	w.logf("rb %s n=%d/%d [%s]", c.name, n, len(msgs), strings.Join(ids, " "))
+	if !w.tearing {
+		w.logf("rb %s n=%d/%d [%s]", c.name, n, len(msgs), strings.Join(ids, " "))
+	}
 	return n, nil
 }
 
@@ -467,7 +469,9 @@ func (c *simConn) WriteBatch(msgs conn.Messages, _ int) (int, error) {
 		}
 		w.inspect(c, msgs[i].Buffers[0], msgs[i].Addr)
 	}
-	w.logf("wb %s n=%d written=%d", c.name, n, k)
+	if !w.tearing {
+		w.logf("wb %s n=%d written=%d", c.name, n, k)
+	}
 	return k, err
 }
 
@@ -1024,11 +1028,10 @@ func (w *world) teardown() {
 		}
 		if pick == nil {
 			for _, a := range ps {
-				if a.Site == "intproc.recv" && !w.procStopClosed() {
-					continue
+				if w.enabled(a) {
+					pick = a
+					break
 				}
-				pick = a
-				break
 			}
 		}
 		if pick == nil {
